@@ -287,5 +287,6 @@ def _run_unit_locked(unit, tmpl, seed, rlimit, needs_ast, threads, extra_args, t
 
 
 if __name__ == '__main__':
-    r = run_unit(sys.argv[1], sys.argv[2], needs_ast='--ast' in sys.argv)
+    _seed = int(sys.argv[sys.argv.index('--seed') + 1]) if '--seed' in sys.argv else int(os.environ.get('VERIF_SEED', '0') or 0)
+    r = run_unit(sys.argv[1], sys.argv[2], seed=_seed, needs_ast='--ast' in sys.argv)
     print(json.dumps({k: v for k, v in r.items() if k not in ('items',)}, indent=1))
